@@ -39,6 +39,7 @@ type Case struct {
 	Tail      *Resp  `json:"tail,omitempty"`
 	// reload family
 	Reloads []ReloadStep `json:"reloads,omitempty"`
+	Started bool         `json:"started,omitempty"` // the manager went through the real Start before the reloads
 	// api family
 	Version int   `json:"version,omitempty"`
 	Check   *Resp `json:"check,omitempty"`
@@ -322,11 +323,13 @@ func genReload(r *vh.Rng, id int) Case {
 	for i := 0; i < n; i++ {
 		e := i + 1
 		ok := !r.Chance(1, 4)
-		class := vh.Pick(r, []string{"early", "early", "never"})
+		class := vh.Pick(r, []string{"early", "early", "never", "late"})
 		script, tail := genScript(r, e, timeout, class)
 		steps = append(steps, ReloadStep{ShellOK: ok, Script: script, Tail: tail})
 	}
-	return Case{Fam: "reload", ID: id, Class: "seq", TimeoutMs: timeout, Reloads: steps, OpenTracing: r.Chance(1, 3)}
+	// half of the managers go through the real Start first (the stand-in binary exits at once, the version
+	// socket serves the initial version 0): the configured timeout must still bound every reload after it
+	return Case{Fam: "reload", ID: id, Class: "seq", TimeoutMs: timeout, Reloads: steps, OpenTracing: r.Chance(1, 3), Started: r.Bool()}
 }
 
 func runReload(dir, fakebin string, c *Case) error {
@@ -345,13 +348,30 @@ func runReload(dir, fakebin string, c *Case) error {
 	lm.SetOpenTracing(c.OpenTracing)
 	var obs []ReloadObs
 	failFlag := filepath.Join(fakebin, "fail")
+	os.Remove(failFlag)
+	if c.Started {
+		s.set(nil, httpR(200, "0", 1))
+		lm.Start(make(chan error, 1))
+	}
 	for _, st := range c.Reloads {
 		s.set(st.Script, st.Tail)
 		os.Remove(failFlag)
 		if !st.ShellOK {
 			os.WriteFile(failFlag, []byte("1"), 0o644)
 		}
-		err := lm.Reload(false)
+		done := make(chan error, 1)
+		go func() { done <- lm.Reload(false) }()
+		var err error
+		select {
+		case err = <-done:
+		case <-time.After(3*time.Duration(c.TimeoutMs)*time.Millisecond + 1500*time.Millisecond):
+			// neither acknowledged nor reported as failed: the manager is still waiting; the rest of the sequence cannot run
+			os.Remove(failFlag)
+			obs = append(obs, ReloadObs{Result: "hang", Version: lm.VerifConfigVersion()})
+			s.set(nil, Resp{Kind: "err", Lat: 1})
+			c.Obs = obs
+			return nil
+		}
 		os.Remove(failFlag)
 		res := "ok"
 		if err != nil {
